@@ -31,9 +31,9 @@ def classify(known, c, r):
         return "parameter_columns_resolved_against_all_query_levels"
     import re
     q = c["queries"].split("\n", 1)[1]
-    marks = re.findall(r"\$\d+|sqlc\.arg\([^)]*\)|@\w+", q)
+    marks = [re.sub(r"[\s'\"]", "", m).replace("sqlc.arg(", "@").rstrip(")") for m in re.findall(r"\$\d+|sqlc\.arg\([^)]*\)|@\w+", q)]
     if v != 0 and r.get("ok"):
-        if re.search(r"\bzq\.\w+\"?\s*(=|<|>|LIKE|\|\||!|IN\b)", q) or re.search(r"(=|<|>|LIKE|\|\|)\s*zq\.", q):
+        if "zq." in q:
             return "unknown_qualifier_next_to_parameter_accepted"
         if len(marks) != len(set(marks)):
             return "repeated_placeholder_first_context_only"
